@@ -4,7 +4,9 @@
    `Gen.Mixins.progs` / `prog_decorator_fun` are the bodies of get_generic_base, _get_types, type_var,
    type_vars, get_decorated_functions and of the innermost function of create_decorator, regenerated from
    pedantic/mixins/*.py on every run; Model/Mixins.v interprets them.  Every theorem below is about these
-   regenerated terms, for every fuel `k` of the call-depth bound (the harness evaluates k = 4 / 5).
+   regenerated terms, for every fuel `k` of the call-depth bound (the harness evaluates k = 4 / 3); a chain of
+   forwarding classes of length S f0 needs f0 more levels: the statements say `f0 + k`, so fuel exhaustion (the
+   distinguished DivergeC) is excluded by the statement.
 
    World: classes with their own __orig_bases__ and MRO; `lookup_ob w c` is the attribute lookup
    C.__orig_bases__.  Type arguments, TypeVars, decorator values are arbitrary values of the model.   *)
@@ -18,9 +20,9 @@ Open Scope list_scope.
 
 (* the entry points evaluated by the correspondence check are instances of the ones the theorems speak about *)
 Theorem C20_entry_points : forall w c oc,
-  call_n progs w no_ext FUEL "type_vars" [VInst c oc] = type_vars_at w 5 c oc /\
-  call_n progs w no_ext FUEL "type_var" [VInst c oc] = type_var_at w 5 c oc /\
-  call_n progs w no_ext FUEL "get_decorated_functions" [VInst c oc] = gdf_at w 4 c oc.
+  call_n progs w no_ext FUEL "type_vars" [VInst c oc] = type_vars_at w 4 c oc /\
+  call_n progs w no_ext FUEL "type_var" [VInst c oc] = type_var_at w 4 c oc /\
+  call_n progs w no_ext FUEL "get_decorated_functions" [VInst c oc] = gdf_at w 3 c oc.
 Proof. intros. repeat split; reflexivity. Qed.
 Print Assumptions C20_entry_points.
 
@@ -39,38 +41,40 @@ Print Assumptions C20_translation_facts.
 
 (* shape 1: class C(<bases>, Generic[T1..Tn], <bases>) - Generic[..] at any position, the other bases
    classes or aliases - instantiated as C[X1..Xn]():  exactly {Ti: Xi}, in declaration order.
-   shapes 2 and 3: class S(<extra bases>, D[X1..Xn], <further bases>), D[..] the first parametrised base that uses the
-   mixin, the extra bases in front of it classes or parametrised bases that have nothing to do with the mixin
-   (List[int]; P[int] with a generic P that does not use GenericMixin - repaired by fix c1eb572): the mapping of D's
-   parameters, however the instance was made (also inside __init__).
-
-   Full statement for shapes 2 and 3 (FALSE on the pinned tree, see C20_type_vars_forwarding_refuted):
-
-     forall tv w k c kvs oc, chain_binding tv w c kvs -> type_vars_at w k c oc = Ok (VDict kvs)
-
-   where D may have got its parameters through a chain of forwarding / partially binding classes
-   (class A(Generic[T, U], GenericMixin); class Half(A[int, U]); class Full(Half[str]) : {T: int, U: str}) and kvs is
-   the mapping of the declaring class with the alias arguments substituted along the chain (Spec `resolve`).
-   What is proved (the _partial form, guard spelled out in `binding_subclass`): D declares Generic[T1..Tn] itself.
-   That is the narrowest guard: with a chain of length >= 2 _get_types raises AttributeError, or reports the binding
-   of a later base. *)
-Theorem C20_type_vars_exact : forall w k c ts xs,
+   shapes 2 and 3, full statement: class S(<extra bases>, D[Z..], <further bases>), D[..] the first parametrised base
+   that uses the mixin, the extra bases in front of it classes or parametrised bases that have nothing to do with the
+   mixin (List[int]; P[int] with a generic P that does not use GenericMixin - fix c1eb572), D either declaring
+   Generic[T1..Tn] itself or having got its parameters through a chain of forwarding / partially binding classes of
+   any length S f0 (class Half(A[int, U]); class Full(Half[str]) - fix 645b1a0): the mapping of the declaring class's
+   TypeVars to the arguments resolved along the chain (Spec `resolve`), all of them bound, however the instance was
+   made (also inside __init__). *)
+Theorem C20_type_vars_exact : forall tv w f0 k c ts xs,
   (direct_generic w c ts -> forall o, type_vars_at w k c (Some (VAlias o xs)) = Ok (VDict (combine ts xs))) /\
-  (binding_subclass w c ts xs -> forall oc, type_vars_at w k c oc = Ok (VDict (combine ts xs))).
+  (chain_binding tv w (S f0) c ts xs -> forall oc, type_vars_at w (f0 + k) c oc = Ok (VDict (combine ts xs))).
 Proof.
-  intros. split; intros H ?; [now apply tv_direct|now apply tv_binding].
+  intros. split; intros H ?; [now apply tv_direct|now apply tv_chain with tv].
 Qed.
 Print Assumptions C20_type_vars_exact.
+
+(* the case of a binding base that declares Generic[..] itself (chain of length 1), without reference to `resolve` *)
+Theorem C20_type_vars_exact_declaring_base : forall tv w k c ts xs,
+  binding_subclass w c ts xs ->
+  (forall oc, type_vars_at w k c oc = Ok (VDict (combine ts xs))) /\
+  (forallb (fun x => negb (tv x)) xs = true -> chain_binding tv w 1 c ts xs).
+Proof.
+  intros tv w k c ts xs H. split; [intro; now apply tv_binding|now apply binding_is_chain].
+Qed.
+Print Assumptions C20_type_vars_exact_declaring_base.
 
 (* the witnesses of the repaired findings K-C20-builtin-alias-first and K-C20-foreign-generic-first now meet the statement:
      class D(Generic[T], GenericMixin); class P(Generic[U])            (classes 10 and 11; the mixin is class 1)
      class S1(List[int], D[str])  ->  {T: str}     (was: AttributeError; list: class 50, no __orig_bases__)
      class S3(P[int], D[str])     ->  {T: str}     (was: {U: int}) *)
 Definition fb_world : world :=
-  {| w_classes := [(10, {| c_own_ob := Some [VAlias VGeneric [VTok 0]; VCls 1]; c_mro := [10; 2; 1; 0] |});
-                   (11, {| c_own_ob := Some [VAlias VGeneric [VTok 1]]; c_mro := [11; 2; 0] |});
-                   (12, {| c_own_ob := Some [VAlias (VCls 50) [VTok 20]; VAlias (VCls 10) [VTok 21]]; c_mro := [12; 50; 10; 2; 1; 0] |});
-                   (13, {| c_own_ob := Some [VAlias (VCls 11) [VTok 20]; VAlias (VCls 10) [VTok 21]]; c_mro := [13; 11; 10; 2; 1; 0] |})];
+  {| w_classes := [(10, {| c_own_ob := Some [VAlias VGeneric [VTok 0]; VCls 1]; c_mro := [10; 2; 1; 0]; c_params := [] |});
+                   (11, {| c_own_ob := Some [VAlias VGeneric [VTok 1]]; c_mro := [11; 2; 0]; c_params := [] |});
+                   (12, {| c_own_ob := Some [VAlias (VCls 50) [VTok 20]; VAlias (VCls 10) [VTok 21]]; c_mro := [12; 50; 10; 2; 1; 0]; c_params := [] |});
+                   (13, {| c_own_ob := Some [VAlias (VCls 11) [VTok 20]; VAlias (VCls 10) [VTok 21]]; c_mro := [13; 11; 10; 2; 1; 0]; c_params := [] |})];
      w_attrs := []; w_mixin := 1 |}.
 
 Example C20_example_foreign_bases :
@@ -83,50 +87,42 @@ Proof.
   split; [exact H12|]. split; [exact H13|]. split; intros k oc; [exact (tv_binding _ k _ oc _ _ H12)|exact (tv_binding _ k _ oc _ _ H13)].
 Qed.
 
-(* known findings K-C20-forwarding-chain and K-C20-partially-binding-chain (the mixin is class 1, TypeVars are the
-   tokens below 20):
-     class A(Generic[T0], GenericMixin) = 10;  class Mid(A[T0]) = 11;  class C(Mid[X21]) = 12
-        C().type_vars raises AttributeError ('NoneType' object has no attribute '__args__'), demanded {T0: X21}
+(* the witnesses of the repaired findings K-C20-forwarding-chain and K-C20-partially-binding-chain now meet the
+   statement (the mixin is class 1, TypeVars are the tokens below 20):
+     class A(Generic[T0], GenericMixin) = 10;  class Mid(A[T0]) = 11;  class C(Mid[X21]) = 12          -> {T0: X21}
      class A2(Generic[T0, T1], GenericMixin) = 20;  class Half(A2[X22, T1]) = 21;  class Full(Half[X23]) = 22
-        Full().type_vars raises AttributeError, demanded {T0: X22, T1: X23}
-     class D(Generic[T2], GenericMixin) = 30;  class E(Mid[X21], D[X24]) = 31
-        E().type_vars == {T2: X24}, the binding of the second base, demanded {T0: X21} *)
+                                                                                      -> {T0: X22, T1: X23}
+     class D(Generic[T2], GenericMixin) = 30;  class E(Mid[X21], D[X24]) = 31          -> {T0: X21} *)
 Definition fw_tv (v : val) : bool := match v with VTok n => Nat.ltb n 20 | _ => false end.
 Definition fw_world : world :=
-  {| w_classes := [(10, {| c_own_ob := Some [VAlias VGeneric [VTok 0]; VCls 1]; c_mro := [10; 2; 1; 0] |});
-                   (11, {| c_own_ob := Some [VAlias (VCls 10) [VTok 0]]; c_mro := [11; 10; 2; 1; 0] |});
-                   (12, {| c_own_ob := Some [VAlias (VCls 11) [VTok 21]]; c_mro := [12; 11; 10; 2; 1; 0] |});
-                   (20, {| c_own_ob := Some [VAlias VGeneric [VTok 0; VTok 1]; VCls 1]; c_mro := [20; 2; 1; 0] |});
-                   (21, {| c_own_ob := Some [VAlias (VCls 20) [VTok 22; VTok 1]]; c_mro := [21; 20; 2; 1; 0] |});
-                   (22, {| c_own_ob := Some [VAlias (VCls 21) [VTok 23]]; c_mro := [22; 21; 20; 2; 1; 0] |});
-                   (30, {| c_own_ob := Some [VAlias VGeneric [VTok 2]; VCls 1]; c_mro := [30; 2; 1; 0] |});
-                   (31, {| c_own_ob := Some [VAlias (VCls 11) [VTok 21]; VAlias (VCls 30) [VTok 24]]; c_mro := [31; 11; 10; 30; 2; 1; 0] |})];
+  {| w_classes := [(10, {| c_own_ob := Some [VAlias VGeneric [VTok 0]; VCls 1]; c_mro := [10; 2; 1; 0]; c_params := [] |});
+                   (11, {| c_own_ob := Some [VAlias (VCls 10) [VTok 0]]; c_mro := [11; 10; 2; 1; 0]; c_params := [VTok 0] |});
+                   (12, {| c_own_ob := Some [VAlias (VCls 11) [VTok 21]]; c_mro := [12; 11; 10; 2; 1; 0]; c_params := [] |});
+                   (20, {| c_own_ob := Some [VAlias VGeneric [VTok 0; VTok 1]; VCls 1]; c_mro := [20; 2; 1; 0]; c_params := [] |});
+                   (21, {| c_own_ob := Some [VAlias (VCls 20) [VTok 22; VTok 1]]; c_mro := [21; 20; 2; 1; 0]; c_params := [VTok 1] |});
+                   (22, {| c_own_ob := Some [VAlias (VCls 21) [VTok 23]]; c_mro := [22; 21; 20; 2; 1; 0]; c_params := [] |});
+                   (30, {| c_own_ob := Some [VAlias VGeneric [VTok 2]; VCls 1]; c_mro := [30; 2; 1; 0]; c_params := [] |});
+                   (31, {| c_own_ob := Some [VAlias (VCls 11) [VTok 21]; VAlias (VCls 30) [VTok 24]]; c_mro := [31; 11; 10; 30; 2; 1; 0]; c_params := [] |})];
      w_attrs := []; w_mixin := 1 |}.
 
-Theorem C20_type_vars_forwarding_refuted :
-  (exists tv w c kvs, chain_binding tv w c kvs /\ kvs = [(VTok 0, VTok 21)] /\
-     forall k oc, type_vars_at w k c oc = Raise AttributeErrorC) /\
-  (exists tv w c kvs, chain_binding tv w c kvs /\ kvs = [(VTok 0, VTok 22); (VTok 1, VTok 23)] /\
-     forall k oc, type_vars_at w k c oc = Raise AttributeErrorC) /\
-  (exists tv w c kvs, chain_binding tv w c kvs /\ kvs = [(VTok 0, VTok 21)] /\
-     forall k oc, type_vars_at w k c oc = Ok (VDict [(VTok 2, VTok 24)])).
+Example C20_example_forwarding_chains :
+  chain_binding fw_tv fw_world 2 12 [VTok 0] [VTok 21] /\
+  chain_binding fw_tv fw_world 2 22 [VTok 0; VTok 1] [VTok 22; VTok 23] /\
+  chain_binding fw_tv fw_world 2 31 [VTok 0] [VTok 21] /\
+  (forall k oc, type_vars_at fw_world (1 + k) 12 oc = Ok (VDict [(VTok 0, VTok 21)])) /\
+  (forall k oc, type_vars_at fw_world (1 + k) 22 oc = Ok (VDict [(VTok 0, VTok 22); (VTok 1, VTok 23)])) /\
+  (forall k oc, type_vars_at fw_world (1 + k) 31 oc = Ok (VDict [(VTok 0, VTok 21)])) /\
+  (forall oc, type_vars_at fw_world 0 12 oc = Raise DivergeC).
 Proof.
-  split; [|split].
-  - exists fw_tv, fw_world, 12, [(VTok 0, VTok 21)]. split; [|split; [reflexivity|intros; reflexivity]].
-    apply (chain_binding_b_sound fw_tv fw_world 12 [VTok 0] [VTok 21]). vm_compute. reflexivity.
-  - exists fw_tv, fw_world, 22, [(VTok 0, VTok 22); (VTok 1, VTok 23)]. split; [|split; [reflexivity|intros; reflexivity]].
-    apply (chain_binding_b_sound fw_tv fw_world 22 [VTok 0; VTok 1] [VTok 22; VTok 23]). vm_compute. reflexivity.
-  - exists fw_tv, fw_world, 31, [(VTok 0, VTok 21)]. split; [|split; [reflexivity|intros; reflexivity]].
-    apply (chain_binding_b_sound fw_tv fw_world 31 [VTok 0] [VTok 21]). vm_compute. reflexivity.
+  assert (H12 : chain_binding fw_tv fw_world 2 12 [VTok 0] [VTok 21]) by (apply chain_binding_b_sound; vm_compute; reflexivity).
+  assert (H22 : chain_binding fw_tv fw_world 2 22 [VTok 0; VTok 1] [VTok 22; VTok 23]) by (apply chain_binding_b_sound; vm_compute; reflexivity).
+  assert (H31 : chain_binding fw_tv fw_world 2 31 [VTok 0] [VTok 21]) by (apply chain_binding_b_sound; vm_compute; reflexivity).
+  split; [exact H12|]. split; [exact H22|]. split; [exact H31|].
+  split; [intros k oc; exact (tv_chain _ _ 1 k _ oc _ _ H12)|].
+  split; [intros k oc; exact (tv_chain _ _ 1 k _ oc _ _ H22)|].
+  split; [intros k oc; exact (tv_chain _ _ 1 k _ oc _ _ H31)|].
+  intro oc. reflexivity.
 Qed.
-Print Assumptions C20_type_vars_forwarding_refuted.
-
-(* the guarded form is the full statement restricted to chains of length 1 *)
-Theorem C20_type_vars_guarded_is_instance_of_full : forall tv w c ts xs,
-  binding_subclass w c ts xs -> List.length ts = List.length xs -> forallb (fun x => negb (tv x)) xs = true ->
-  chain_binding tv w c (combine ts xs).
-Proof. exact binding_is_chain. Qed.
-Print Assumptions C20_type_vars_guarded_is_instance_of_full.
 
 (* with as many arguments as parameters the dict has the TypeVars as keys and the arguments as values, in order *)
 Theorem C20_type_vars_order : forall (ts xs : list val),
@@ -158,24 +154,24 @@ Qed.
 Print Assumptions C20_non_generic_or_unparametrised_asserts.
 
 (* type_var: the single argument when n = 1; AssertionError when n <> 1 *)
-Theorem C20_type_var_single : forall w k c t x,
+Theorem C20_type_var_single : forall tv w f0 k c t x,
   (direct_generic w c [t] -> forall o, type_var_at w k c (Some (VAlias o [x])) = Ok x) /\
-  (binding_subclass w c [t] [x] -> forall oc, type_var_at w k c oc = Ok x).
+  (chain_binding tv w (S f0) c [t] [x] -> forall oc, type_var_at w (f0 + k) c oc = Ok x).
 Proof.
   intros. split; intros H ?.
   - now rewrite (tvar_direct w k c _ [x] [t] H).
-  - now rewrite (tvar_binding w k c _ [t] [x] H).
+  - now rewrite (tvar_chain tv w f0 k c _ [t] [x] H).
 Qed.
 Print Assumptions C20_type_var_single.
 
-Theorem C20_type_var_several_asserts : forall w k c ts xs,
+Theorem C20_type_var_several_asserts : forall tv w f0 k c ts xs,
   List.length ts = List.length xs -> List.length ts <> 1%nat ->
   (direct_generic w c ts -> forall o, type_var_at w k c (Some (VAlias o xs)) = Raise AssertionErrorC) /\
-  (binding_subclass w c ts xs -> forall oc, type_var_at w k c oc = Raise AssertionErrorC).
+  (chain_binding tv w (S f0) c ts xs -> forall oc, type_var_at w (f0 + k) c oc = Raise AssertionErrorC).
 Proof.
-  intros w k c ts xs Hl Hn. split; intros H ?.
+  intros tv w f0 k c ts xs Hl Hn. split; intros H ?.
   - rewrite (tvar_direct w k c _ xs ts H). now apply type_var_of_many.
-  - rewrite (tvar_binding w k c _ ts xs H). now apply type_var_of_many.
+  - rewrite (tvar_chain tv w f0 k c _ ts xs H). now apply type_var_of_many.
 Qed.
 Print Assumptions C20_type_var_several_asserts.
 
@@ -188,6 +184,18 @@ Proof.
   intros w k c oc s H Hv. apply shape_holds_b_sound in H. split; [now apply tv_meets_spec|now apply tvar_meets_spec].
 Qed.
 Print Assumptions C20_type_vars_oracle.
+
+(* the same for the layouts with a chain of forwarding / partially binding classes (the driver passes the TypeVars of
+   the declaring class and the arguments it resolved itself; `chain_binding_b` recomputes them with Spec `resolve`) *)
+Theorem C20_type_vars_chain_oracle : forall tv w f0 k c oc ts xs,
+  chain_binding_b tv w (S f0) c ts xs = true -> forallb self_eq ts = true -> forallb self_eq xs = true ->
+  meets (type_vars_at w (f0 + k) c oc) (ExpDict (combine ts xs)) = true.
+Proof.
+  intros tv w f0 k c oc ts xs H Hs Hx. apply chain_binding_b_sound in H.
+  rewrite (tv_chain tv w f0 k c oc ts xs H). cbn [meets].
+  destruct H as (_ & _ & _ & _ & _ & _ & _ & _ & _ & _ & Hd & _). now apply same_dict_zip.
+Qed.
+Print Assumptions C20_type_vars_chain_oracle.
 
 (* ---------------------------------------------------------------------------------------------------- *)
 (* create_decorator                                                                                         *)
@@ -295,8 +303,8 @@ Definition k9_cd : list mdef :=
   [ {| m_name := "__call__"; m_id := 1; m_inner := [{| d_type := "_foo"; d_val := VInt 7; d_tr := TrNone |}];
        m_wrap := WPlain; m_outer := [] |} ].
 Definition k9_world : world :=
-  {| w_classes := [(1, {| c_own_ob := Some [VAlias (VCls 2) [VEnumCls k9_ms]]; c_mro := [1; 2] |});
-                   (2, {| c_own_ob := Some Gen.Mixins.wdm_own_bases; c_mro := [2; 900; 901] |})];
+  {| w_classes := [(1, {| c_own_ob := Some [VAlias (VCls 2) [VEnumCls k9_ms]]; c_mro := [1; 2]; c_params := [] |});
+                   (2, {| c_own_ob := Some Gen.Mixins.wdm_own_bases; c_mro := [2; 900; 901]; c_params := [] |})];
      w_attrs := map entry_of k9_cd; w_mixin := 901 |}.
 
 Theorem C20_decorated_dunder_refuted : exists w c e ms cd,
@@ -323,8 +331,8 @@ Definition rp_cd : list mdef :=
     {| m_name := "m"; m_id := 2; m_inner := [{| d_type := "_foo"; d_val := VInt 1; d_tr := TrNone |}];
        m_wrap := WPlain; m_outer := [] |} ].
 Definition rp_world : world :=
-  {| w_classes := [(1, {| c_own_ob := Some [VAlias (VCls 2) [VEnumCls k9_ms]]; c_mro := [1; 2; 900; 901] |});
-                   (2, {| c_own_ob := Some Gen.Mixins.wdm_own_bases; c_mro := [2; 900; 901] |})];
+  {| w_classes := [(1, {| c_own_ob := Some [VAlias (VCls 2) [VEnumCls k9_ms]]; c_mro := [1; 2; 900; 901]; c_params := [] |});
+                   (2, {| c_own_ob := Some Gen.Mixins.wdm_own_bases; c_mro := [2; 900; 901]; c_params := [] |})];
      w_attrs := map entry_of rp_cd; w_mixin := 901 |}.
 
 Example C20_example_raising_property :
@@ -348,9 +356,9 @@ Print Assumptions C20_decorated_unparametrised_asserts.
 
 (* class B(P5, Generic[T0, T1], GenericMixin, P6); class S(P7, B[X20, X21], P8); class S2(P9, S) *)
 Definition ex_world : world :=
-  {| w_classes := [(10, {| c_own_ob := Some [VCls 5; VAlias VGeneric [VTok 0; VTok 1]; VCls 1; VCls 6]; c_mro := [10; 5; 2; 1; 6; 0] |});
-                   (11, {| c_own_ob := Some [VCls 7; VAlias (VCls 10) [VTok 20; VTok 21]; VCls 8]; c_mro := [11; 7; 10; 5; 2; 1; 6; 8; 0] |});
-                   (12, {| c_own_ob := None; c_mro := [12; 9; 11; 7; 10; 5; 2; 1; 6; 8; 0] |})];
+  {| w_classes := [(10, {| c_own_ob := Some [VCls 5; VAlias VGeneric [VTok 0; VTok 1]; VCls 1; VCls 6]; c_mro := [10; 5; 2; 1; 6; 0]; c_params := [] |});
+                   (11, {| c_own_ob := Some [VCls 7; VAlias (VCls 10) [VTok 20; VTok 21]; VCls 8]; c_mro := [11; 7; 10; 5; 2; 1; 6; 8; 0]; c_params := [] |});
+                   (12, {| c_own_ob := None; c_mro := [12; 9; 11; 7; 10; 5; 2; 1; 6; 8; 0]; c_params := [] |})];
      w_attrs := []; w_mixin := 1 |}.
 
 Example C20_example_shapes :
@@ -367,7 +375,7 @@ Example C20_example_shapes :
 Proof.
   repeat split; try (apply direct_generic_b_sound; vm_compute; reflexivity);
     try (apply binding_subclass_b_sound; vm_compute; reflexivity); try (vm_compute; reflexivity).
-  exists {| c_own_ob := None; c_mro := [12; 9; 11; 7; 10; 5; 2; 1; 6; 8; 0] |}. repeat split; reflexivity.
+  exists {| c_own_ob := None; c_mro := [12; 9; 11; 7; 10; 5; 2; 1; 6; 8; 0]; c_params := [] |}. repeat split; reflexivity.
 Qed.
 
 (* class K(WithDecoratedMethods[D]) with D = {_foo, _bar}:
@@ -385,8 +393,8 @@ Definition ex_cd : list mdef :=
     {| m_name := "type_var"; m_id := 0; m_inner := []; m_wrap := WProperty (Ok VNone); m_outer := [] |};
     {| m_name := "z"; m_id := 6; m_inner := [ex_bar 9]; m_wrap := WClassMethod; m_outer := [] |} ].
 Definition ex_dm_world : world :=
-  {| w_classes := [(1, {| c_own_ob := Some [VAlias (VCls 2) [VEnumCls ex_ms]]; c_mro := [1; 2] |});
-                   (2, {| c_own_ob := Some Gen.Mixins.wdm_own_bases; c_mro := [2; 900; 901] |})];
+  {| w_classes := [(1, {| c_own_ob := Some [VAlias (VCls 2) [VEnumCls ex_ms]]; c_mro := [1; 2]; c_params := [] |});
+                   (2, {| c_own_ob := Some Gen.Mixins.wdm_own_bases; c_mro := [2; 900; 901]; c_params := [] |})];
      w_attrs := map entry_of ex_cd; w_mixin := 901 |}.
 
 Example C20_example_decorated :
